@@ -21,7 +21,7 @@ pub static SPEC: PropSpec = PropSpec {
     case_cpu_s: 120,
     shards: 0,
     run,
-    floors: &[("evaluations", 200_000, 1_500_000), ("programs_run", 40, 300), ("out_of_range_literals_rejected", 30, 60), ("div_zero_failures_checked", 30, 30), ("float_checks", 500, 5_000)],
+    floors: &[("evaluations", 200_000, 1_500_000), ("programs_run", 40, 300), ("out_of_range_literals_rejected", 30, 60), ("div_zero_failures_checked", 30, 30), ("float_checks", 500, 5_000), ("compound_evaluations", 50_000, 400_000)],
     finish: None,
 };
 
@@ -266,6 +266,177 @@ fn pairs_program(case: &mut Case, t: IntTy, rng: &mut Rng, literal_operands: boo
         compare_lines(case, &label, &src, exp, &out, &|i| descr[base + i].clone());
         case.count("evaluations", chunk.len() as u64);
         case.count(if literal_operands { "literal_path_evaluations" } else { "variable_path_evaluations" }, chunk.len() as u64);
+    }
+}
+
+/// compound expressions written with the fewest parentheses the documented precedence allows
+/// (prefix minus binds tighter than every binary operator; * / over + - over comparisons; all
+/// binary operators group to the left): the grouping decides the number
+#[derive(Clone, Debug)]
+enum CE {
+    V(usize),
+    Neg(Box<CE>),
+    Bin(&'static str, Box<CE>, Box<CE>),
+}
+fn ce_prec(op: &str) -> u8 {
+    match op {
+        "*" | "/" => 6,
+        "+" | "-" => 5,
+        "<" | "<=" | ">" | ">=" => 4,
+        _ => 3,
+    }
+}
+fn ce_level(e: &CE) -> u8 {
+    match e {
+        CE::V(_) => 8,
+        CE::Neg(_) => 7,
+        CE::Bin(op, _, _) => ce_prec(op),
+    }
+}
+fn ce_print(e: &CE, min: u8, out: &mut String) {
+    let need = ce_level(e) < min;
+    if need {
+        out.push('(');
+    }
+    match e {
+        CE::V(i) => out.push(['a', 'b', 'c'][*i]),
+        CE::Neg(x) => {
+            out.push('-');
+            // `--a` is written `-(-a)`
+            if matches!(**x, CE::Neg(_)) {
+                out.push('(');
+                ce_print(x, 0, out);
+                out.push(')');
+            } else {
+                ce_print(x, 7, out);
+            }
+        }
+        CE::Bin(op, l, r) => {
+            let p = ce_prec(op);
+            ce_print(l, p, out);
+            out.push(' ');
+            out.push_str(op);
+            out.push(' ');
+            ce_print(r, p + 1, out);
+        }
+    }
+    if need {
+        out.push(')');
+    }
+}
+/// value of an arithmetic tree at type t (None: a division by zero happens somewhere)
+fn ce_eval(e: &CE, t: IntTy, env: &[i128; 3]) -> Option<i128> {
+    Some(match e {
+        CE::V(i) => env[*i],
+        CE::Neg(x) => t.wrap(-ce_eval(x, t, env)?),
+        CE::Bin(op, l, r) => {
+            let (a, b) = (ce_eval(l, t, env)?, ce_eval(r, t, env)?);
+            match *op {
+                "+" => t.wrap(a + b),
+                "-" => t.wrap(a - b),
+                "*" => t.wrap(a.wrapping_mul(b)),
+                "/" => {
+                    if b == 0 {
+                        return None;
+                    }
+                    t.wrap(a.wrapping_div(b))
+                }
+                _ => unreachable!(),
+            }
+        }
+    })
+}
+fn ce_random(rng: &mut Rng, nodes: u32) -> CE {
+    if nodes == 0 {
+        return CE::V(rng.below(3) as usize);
+    }
+    if rng.chance(1, 3) {
+        return CE::Neg(Box::new(ce_random(rng, nodes - 1)));
+    }
+    let op = rng.pick(&["+", "-", "*", "/", "/", "-"]);
+    let left = rng.below(nodes as usize) as u32;
+    CE::Bin(op, Box::new(ce_random(rng, left)), Box::new(ce_random(rng, nodes - 1 - left)))
+}
+fn compound_program(case: &mut Case, t: IntTy, rng: &mut Rng, n_random: usize, n_values: usize) {
+    let v = |i: usize| Box::new(CE::V(i));
+    let neg = |e: Box<CE>| Box::new(CE::Neg(e));
+    let bin = |op: &'static str, l: Box<CE>, r: Box<CE>| Box::new(CE::Bin(op, l, r));
+    // the shapes every run has: prefix minus against each binary operator on either side, and
+    // each pair of binary operators in both nestings
+    let mut shapes: Vec<CE> = Vec::new();
+    for op in ARITH {
+        shapes.push(*bin(op, neg(v(0)), v(1)));
+        shapes.push(*neg(bin(op, v(0), v(1))));
+        shapes.push(*bin(op, v(0), neg(v(1))));
+        shapes.push(*bin(op, neg(v(0)), neg(v(1))));
+        for op2 in ARITH {
+            shapes.push(*bin(op2, bin(op, v(0), v(1)), v(2)));
+            shapes.push(*bin(op, v(0), bin(op2, v(1), v(2))));
+            shapes.push(*bin(op2, bin(op, neg(v(0)), v(1)), v(2)));
+            shapes.push(*bin(op, neg(v(0)), bin(op2, v(1), v(2))));
+        }
+    }
+    for _ in 0..n_random {
+        let n = 2 + rng.below(3) as u32;
+        shapes.push(ce_random(rng, n));
+    }
+    let mut fns = String::new();
+    let mut texts = Vec::new();
+    for (i, sh) in shapes.iter().enumerate() {
+        let mut txt = String::new();
+        ce_print(sh, 0, &mut txt);
+        fns.push_str(&format!("fn e{}(a: {ty}, b: {ty}, c: {ty}) -> {ty} {{ {} }}\n", i, txt, ty = t.name()));
+        // the same operands compared: the comparison binds loosest
+        fns.push_str(&format!("fn q{}(a: {ty}, b: {ty}, c: {ty}) -> bool {{ {} < c }}\n", i, txt, ty = t.name()));
+        texts.push(txt);
+    }
+    let mut vals = boundary_values(t, rng, 2);
+    while vals.len() > n_values {
+        let k = rng.below(vals.len());
+        // keep the extremes
+        if vals[k] == t.min_val() || vals[k] == t.max_val() || vals[k] == 0 {
+            if vals.len() <= 4 {
+                break;
+            }
+            continue;
+        }
+        vals.remove(k);
+    }
+    let spell = |v: i128| -> String { if t.signed() && v == t.min_val() { format!("({} - {})", lit(t, v + 1), lit(t, 1)) } else { lit(t, v) } };
+    let mut lines = Vec::new();
+    let mut expected = Vec::new();
+    let mut descr = Vec::new();
+    for (i, sh) in shapes.iter().enumerate() {
+        for a in &vals {
+            for b in &vals {
+                for c in &vals {
+                    if !rng.chance(1, 3) && !(*a == t.max_val() || *a == t.min_val()) {
+                        continue;
+                    }
+                    let env = [*a, *b, *c];
+                    let Some(r) = ce_eval(sh, t, &env) else { continue };
+                    lines.push(format!("    let _ = string_println({}_to_string(e{}({}, {}, {})) + \" \" + bool_to_string(q{}({}, {}, {})));", t.name(), i, spell(*a), spell(*b), spell(*c), i, spell(*a), spell(*b), spell(*c)));
+                    expected.push(format!("{} {}", r, r < *c));
+                    descr.push(format!("`{}` (and `{} < c`) with a={} b={} c={} at {}", texts[i], texts[i], a, b, c, t.name()));
+                    case.nontrivial(hash_str(&format!("compound|{}|{}|{}|{}|{}", t.name(), texts[i], a, b, c)));
+                }
+            }
+        }
+    }
+    case.count("compound_shapes", shapes.len() as u64);
+    for (ci, chunk) in lines.chunks(500).enumerate() {
+        let src = format!("{}fn main() -> unit {{\n{}\n    ()\n}}\n", fns, chunk.join("\n"));
+        let label = format!("compound/{}/{}", t.name(), ci);
+        let Some((out, term, stderr)) = run_program(case, &label, &src, 40_000_000) else { continue };
+        if term != Term::Ok {
+            case.violation(format!("C10:unexpected-failure:compound/{}", t.name()), format!("{} fails at run time: {:?}", label, term), json!({"label": label, "stderr": stderr, "source": util::truncate(&src, 3000)}));
+            continue;
+        }
+        let base = ci * 500;
+        let exp = &expected[base..base + chunk.len()];
+        compare_lines(case, &label, &src, exp, &out, &|i| descr[base + i].clone());
+        case.count("evaluations", 2 * chunk.len() as u64);
+        case.count("compound_evaluations", 2 * chunk.len() as u64);
     }
 }
 
@@ -636,6 +807,10 @@ fn run(ctx: &mut Ctx) {
             pairs_program(c, t, &mut rng, true, if thorough { 12 } else { 2 })
         }));
         jobs.push(Box::new(move |c| literal_spellings(c, t)));
+        jobs.push(Box::new(move |c| {
+            let mut rng = Rng::keyed(seed, "c10-compound", t.bits() as u64 + t.signed() as u64 * 100, 2);
+            compound_program(c, t, &mut rng, if thorough { 120 } else { 20 }, if thorough { 9 } else { 6 })
+        }));
         for unused in [false, true] {
             for literal_zero in [false, true] {
                 jobs.push(Box::new(move |c| div_zero(c, t, unused, literal_zero)));
